@@ -53,7 +53,10 @@ def strategy(tier):
     pool = st.fixed_dictionaries({'pool_restart': st.just(True), 'workers': st.lists(st.sampled_from(['thread', 'process', 'stuck_thread', 'thread']), min_size=1, max_size=3),
                                   'timeout': st.sampled_from([0.2, 0.5])})
     # restart of a remote worker whose parent-side forwarding thread is held while it forwards the last result of the old incarnation
-    held = st.fixed_dictionaries({'held_forwarder': st.just(True), 'items': st.integers(1, 3), 'n_raw': st.integers(0, 30), 'timeout': st.sampled_from([0.2, 0.5])})
+    # ('pre': calls made while the thread is held that already find the remote child gone - the restart that is judged comes after them;
+    # round-4 seed C17-m7: a second wait()/restart() took "remote child dead" for "worker dead" and re-initialised over the running thread)
+    held = st.fixed_dictionaries({'held_forwarder': st.just(True), 'items': st.integers(1, 3), 'n_raw': st.integers(0, 30), 'timeout': st.sampled_from([0.2, 0.5]),
+                                  'pre': st.sampled_from([[], [], ['close_wait'], ['wait'], ['terminate'], ['restart'], ['close_wait', 'wait'], ['terminate', 'wait']])})
     return st.one_of(plain, plain, plain, plain, plain, plain, pool, held)
 
 
@@ -182,6 +185,23 @@ def run_held_forwarder(case, ctx):
         out.label('forwarder_held')
         out.nontrivial = True
         old_child = w._child
+        for pre in case.get('pre', []):
+            out.label('held_forwarder_pre:' + pre)
+            try:
+                if pre == 'close_wait':
+                    bounded(w.close, 20)
+                    bounded(w.wait, 40, 0.5)
+                elif pre == 'wait':
+                    bounded(w.wait, 40, 0.3)
+                elif pre == 'terminate':
+                    bounded(w.terminate, 40, timeout=0.3)
+                elif pre == 'restart':
+                    bounded(w.restart, 40, timeout=case['timeout'])
+            except Blocked:
+                out.viol('call_blocked_with_forwarder_held', site, pre)
+                return out
+            except Exception:
+                pass        # e.g. RuntimeError from a restart that cannot stop the old incarnation - the documented answer
         try:
             bounded(w.restart, 40, timeout=case['timeout'])
             ret = 'returned'
